@@ -426,11 +426,17 @@ func boolCoq(b bool) string {
 	return "N"
 }
 
+// Limits far beyond any scheduling delay: they only end the waiting when
+// something that must happen does not happen at all.
 const (
-	completionLimit = 3 * time.Second
-	closeWriteGrace = 2 * time.Second
-	counterGrace    = 2 * time.Second
+	completionLimit = 15 * time.Second
+	closeWriteGrace = 10 * time.Second
+	counterGrace    = 10 * time.Second
 )
+
+// stuckSessions counts sessions in which something that had to end by itself
+// did not; after a few of them further generation is pointless (and slow).
+var stuckSessions int
 
 // runSession executes the session on the real code and renders the Coq term.
 func runSession(s Session) (coq string, nontrivial bool, tags []string) {
@@ -565,6 +571,7 @@ func runSession(s Session) (coq string, nontrivial bool, tags []string) {
 		tags = append(tags, "ends:"+lc.spec.EndC+"/"+lc.spec.EndS)
 		if lc.stuck {
 			tags = append(tags, "stuck")
+			stuckSessions++
 		}
 	}
 	// counters at quiescence
@@ -614,13 +621,13 @@ func main() {
 	w := hx.NewWriter(cfg, header, "session_case", "forward_failures", 150)
 	w.Rule = "a case = one run of controller.forward with 1..k loopback-TCP forwarded connections (scenario, recorded trace of the wrapped connections, far-end bytes, counters); distinct = distinct Coq terms; non-trivial = some connection carried bytes in both directions"
 	add := func(s Session, origin string) {
-		if w.Aborted {
+		if w.Aborted || stuckSessions >= 3 {
 			return
 		}
 		var coq string
 		var nt bool
 		var tags []string
-		if w.Guard(s, 15*time.Second, func() { coq, nt, tags = runSession(s) }) {
+		if w.Guard(s, 120*time.Second, func() { coq, nt, tags = runSession(s) }) {
 			w.Add(hx.Case{Coq: coq, Replay: s, Nontrivial: nt, Tags: tags, Origin: origin})
 		}
 	}
@@ -691,7 +698,7 @@ func main() {
 	nRandom := 600
 	maxConns := 4
 	if cfg.Thorough() {
-		nRandom = 30000
+		nRandom = 8000
 		maxConns = 8
 	}
 	rscript := func(allowErr bool) []RStep {
@@ -773,6 +780,7 @@ func main() {
 		}
 		add(s, "random")
 	}
+	w.Extra["traces_validated_against_impl"] = w.Total()
 	w.Close()
 	fmt.Println(strings.TrimSpace(fmt.Sprintf("cases %d", w.Total())))
 }
